@@ -2,6 +2,7 @@
 from __future__ import annotations
 
 import copy
+import os
 import random
 import shutil
 import tempfile
@@ -237,6 +238,45 @@ def _map_cases(tier, rng):
         prog = progs.gen_map_program(rng, n_funcs=rng.randint(1, 3), allow_generator=False)
         q += 1
         yield {"prog": prog, "cache": CACHES[q % 4], "repeat_values": rng.random() < 0.7, "seed": q // 4}
+        if q % 2 == 0:
+            # history over run folders: a run into F, the cache emptied, the run resumed on F (cleanup=False: everything
+            # is found in F), then a fresh run into another folder G with the cache as the resumed run left it
+            yield {"prog": prog, "cache": CACHES[(q // 2) % 4], "seed": q // 4, "folders": True}
+
+
+def _check_map_folders(case, prog, p, want, ctype):
+    from pipefunc.map import load_outputs
+    base = tempfile.mkdtemp(prefix="vf_c09f_")
+    bad = []
+    try:
+        F, G = os.path.join(base, "F"), os.path.join(base, "G")
+        steps = (("run into F", F, {}), ("resumed run on F after the cache was emptied", F, {"cleanup": False}),
+                 ("fresh run into G after the resumed run", G, {}))
+        for what, folder, extra in steps:
+            if extra:
+                p.cache.clear()
+            try:
+                res = p.map(progs.real_inputs(prog), run_folder=folder, parallel=False, storage="file_array", **extra,
+                            **progs.map_kwargs(prog))
+            except Exception as e:  # noqa: BLE001
+                return bad + [f"{what} with {ctype} cache raised {type(e).__name__}: {str(e)[:120]}"]
+            for f in prog["funcs"]:
+                for o in f["outputs"]:
+                    got = progs.to_nested(res[o].output)
+                    if got != want[o]:
+                        bad.append(f"{what} with {ctype} cache differs:{o}: got {str(got)[:150]} want {str(want[o])[:150]}")
+                    try:
+                        st = progs.to_nested(load_outputs(o, run_folder=folder))
+                    except Exception as e:  # noqa: BLE001
+                        st = f"{type(e).__name__}: {str(e)[:80]}"
+                    if st != want[o]:
+                        bad.append(f"{what} with {ctype} cache left {o} = {str(st)[:150]} in its folder, the run without "
+                                   f"caching leaves {str(want[o])[:150]}")
+            if bad:
+                return bad
+        return bad
+    finally:
+        shutil.rmtree(base, ignore_errors=True)
 
 
 def _check_map(case):
@@ -252,6 +292,8 @@ def _check_map(case):
     bad = []
     try:
         p = progs.build_pipeline(prog, cache_type=ctype, **kw)
+        if case.get("folders"):
+            return _check_map_folders(case, prog, p, want, ctype)
         for rep in (1, 2):  # the second run hits the cache
             log: list = []
             progs.set_log(log)
